@@ -66,6 +66,8 @@ type NodeRT struct {
 	HandlerMs   int
 	BlockHandler chan struct{} // if non-nil every callback blocks on it
 	EventBeforeReady bool
+	FeedFull         bool // (publisher nodes) the feeding subscription's buffer was observed full
+	WasFull          bool // the subscription's buffer was observed full: it may legitimately have lost events
 }
 
 func (n *NodeRT) Name() string { return fmt.Sprintf("node%d(%s)", n.ID, n.Kind) }
@@ -87,6 +89,11 @@ type H struct {
 	RootPred   func(Spec) bool
 	Period     time.Duration
 
+	// Overflow: the library reported a full subscriber buffer ("event buffer
+	// overrun"); from then on event streams may legitimately have gaps.
+	Overflow         bool
+	ExpectNoOverflow bool
+	WatchOverflow    bool // watcher/session buffer overflow: watch events lost until the next relist
 	EvSeq       int // global receive counter
 	MaxSeenVer  int // highest version any reader has received (C04 resume lower bound)
 	GetCheck    bool
@@ -94,7 +101,22 @@ type H struct {
 }
 
 func NewH(srv *Server, rootFilter FilterSpec, period time.Duration, logYield bool) *H {
-	h := &H{Srv: srv, RootFilter: rootFilter, RootPred: rootFilter.Pred(), Period: period, Log: NewLog(logYield)}
+	h := &H{Srv: srv, RootFilter: rootFilter, RootPred: rootFilter.Pred(), Period: period}
+	lg := NewLog(logYield)
+	lg.Hook = func(level, comp, msg string) {
+		switch {
+		case strings.Contains(msg, "event buffer overrun"):
+			h.Overflow = true
+			detsim.Count("probe:subscriber-buffer-overflow")
+			if h.ExpectNoOverflow {
+				detsim.Fail("unexpected-overflow", "%s logged %q although every consumer keeps its backlog far below the buffer size", comp, msg)
+			}
+		case strings.Contains(msg, "output buffer full"):
+			h.WatchOverflow = true
+			detsim.Count("probe:watch-buffer-overflow")
+		}
+	}
+	h.Log = lg
 	h.Ctx, h.Cancel = context.WithCancel(context.Background())
 	return h
 }
@@ -108,6 +130,27 @@ func (h *H) Start() {
 		detsim.Fail("infra:builder", "builder.Create: %v", err)
 	}
 	h.Ctrl = c
+}
+
+// Invariant is evaluated by the scheduler after every step (no channel
+// operations allowed here).  It tracks which subscriber buffers were ever full
+// and flags events that become visible before Ready().
+func (h *H) Invariant() (string, string) {
+	for _, n := range h.Nodes {
+		if n.Sub == nil || n.Mon != nil {
+			continue
+		}
+		ch := n.Sub.Events()
+		l := len(ch)
+		if l > 0 && l == cap(ch) {
+			n.WasFull = true
+		}
+		if l > 0 && !n.EventBeforeReady && !detsim.IsClosed(n.Sub.Ready()) {
+			n.EventBeforeReady = true
+			return "event-before-ready", fmt.Sprintf("%s: %d event(s) queued on Events() while Ready() is still open", n.Name(), l)
+		}
+	}
+	return "", ""
 }
 
 // WaitClosed waits for a signal channel for at most d of simulated time.
@@ -310,6 +353,9 @@ func (h *H) record(n *NodeRT, ev kcache.Event) {
 	if v := spec.Ver(); v > h.MaxSeenVer && re.Type != "delete" {
 		h.MaxSeenVer = v
 	}
+	if h.Overflow {
+		n.Mirror = nil // gaps are legitimate from now on; strict replay is meaningless
+	}
 	if n.Mirror != nil {
 		if msg := n.Mirror.Apply(re.Type, spec); msg != "" {
 			detsim.Fail("malformed-event", "%s (event #%d of this subscriber)", msg, len(n.Events))
@@ -481,13 +527,23 @@ func (h *H) CheckTree(prefix string) {
 					n.Name(), n.Filter.String(), got, want, SpecIDs(pspecs))
 			}
 		}
-		if n.Mirror != nil && (n.Reader == "eager" || n.Reader == "slow") && len(n.Sub.Events()) == 0 {
+		if n.Mirror != nil && !h.Overflow && !n.WasFull && !h.upstreamFull(n) && (n.Reader == "eager" || n.Reader == "slow") && len(n.Sub.Events()) == 0 {
 			m := SpecIDs(n.Mirror.List())
 			if !SameIDs(m, got) {
 				detsim.Fail(prefix+"mirror-diverged", "%s: replaying its events does not give its cache\n  mirror: %v\n  cache : %v\n  events: %s", n.Name(), m, got, sigs(n.Events))
 			}
 		}
 	}
+}
+
+// upstreamFull: some subscription between n and the root had a full buffer.
+func (h *H) upstreamFull(n *NodeRT) bool {
+	for p := n.Parent; p != nil; p = p.Parent {
+		if p.WasFull || p.FeedFull {
+			return true
+		}
+	}
+	return false
 }
 
 func sigs(evs []RecEvent) string {
